@@ -163,3 +163,9 @@ REQUIRED_THEOREMS["C02"] = ["C02_refines", "C02_refines_step", "C02_inverts_at_p
                             "C02_false_iff_run", "C02_reachable_prefix", "C02_reachable", "C02_reachable_edit_last",
                             "C02_one_step_user", "C02_one_step", "C02_one_step_group", "C02_session", "C02_session_step"]
 REQUIRED_THEOREMS["C20"] = ["C20_refresh", "C20_refresh_cases", "C20_refresh_nested", "C20_refresh_run"]
+REQUIRED_THEOREMS["C03"] = ["C03_acyclic", "C03_forest_reading", "C03_step_deleteEdge", "C03_deleteEdge_effect", "C03_step_addEdge",
+                            "C03_step_updateAttrs", "C03_step_swap", "C03_step_addNode", "C03_step_deleteNode_partial",
+                            "C03_step_updateSeg_partial", "C03_step_session", "C03_refuse_merge", "C03_refuse_backward",
+                            "C03_refuse_triple", "C03_refuse_triple_forced", "C03_force_minimal",
+                            "C03_hyp_needed_addNode_book", "C03_hyp_needed_addNode_tid", "C03_hyp_needed_deleteNode_book",
+                            "C03_hyp_needed_deleteNode_tid"]
